@@ -105,12 +105,13 @@ _iov("C20", "A cloned or taken OwningIovec is an independent snapshot",
       "Woodpile.Props.C20.frame_valid",
       "Woodpile.Props.C20.frame_heap",
       "Woodpile.Props.C20.clone_independent_nonfill",
-      "Woodpile.Props.C20.clone_independent_backfill_partial"],
+      "Woodpile.Props.C20.pending_private",
+      "Woodpile.Props.C20.creach_has_history",
+      "Woodpile.Props.C20.clone_independent"],
      ["Woodpile.Props.C20"], ["C20"], ["A", "R"],
      "Kernel-checked on the multi-object world model: clone_copies, take_moves_all (+ tokens still backfill the taken value), frame_struct / "
      "frame_valid for every op, frame_heap (every heap write lands above every existing slice of its chunk, or in a pending range of the backfilled "
-     "iovec), clone_independent for every op except backfill at full strength. Correspondence over histories with clone/take and interleaved suffixes "
+     "iovec), pending_private, clone_independent for every op. Correspondence over histories with clone/take and interleaved suffixes "
      "on both sides; per-object shadow oracle checked on every object after every operation.",
-     " PARTIAL: clone_independent for backfill is proved GIVEN pending_private (no other object's slice covers a pending placeholder range); "
-     "that invariant (for histories cloning only iovecs with no pending placeholder) is stated, not proved - covered on the real code by the "
-     "per-object shadow oracle only.")
+     " clone_independent is proved at full strength (incl. backfill) for histories that clone only iovecs with no placeholder pending "
+     "(pending_private: no other object's slice covers a pending placeholder range; the premise is shown necessary by a model counter-example).")
